@@ -72,3 +72,17 @@ package preprocess
 //@ ensures block-array-kept-or-fresh (or (= (s.arr graph.Blocks) (old (s.arr graph.Blocks))) (fresh (s.arr graph.Blocks)))
 //@ ensures other-blocks-untouched (forall ((b *cfg.Block)) (=> (and (allocated-before b) (not (= b thisBlock))) (= (deref b) (old (deref b)))))
 //@ ensures successor-array-kept (= (s.arr thisBlock.Succs) (old (s.arr thisBlock.Succs)))
+
+//@ -- C02 (switch statements become comparisons): when a block ends with a switch tag followed by its first case
+//@ -- expression, the block is rewritten to end with `tag == caseExpr`; every further block of the case chain (a block
+//@ -- with two successors holding one case expression) is rewritten to hold exactly `tag == caseExpr` - including the
+//@ -- last one.  Nil checks spelled `switch x { case nil: ... }` reach AddNilCheck only in this form.
+//@ define (isTagEq n tag c) (and (is n *ast.BinaryExpr) (= (. (as n *ast.BinaryExpr) Op) token.EQL) (= (. (as n *ast.BinaryExpr) X) tag) (= (. (as n *ast.BinaryExpr) Y) c))
+//@ func markSwitchStatements
+//@ prop C02
+//@ modifies (obj (idx graph.Blocks 0)) (elems (. (idx graph.Blocks 0) Nodes))
+//@ assert at-entry:1 head-block-ends-with-the-comparison (and (= (len block.Nodes) (- n 1)) (isTagEq (idx block.Nodes (- n 2)) switchExpr caseExpr))
+//@ loop 1 step case-block-holds-exactly-the-comparison (let ((cb (atloop (idx graph.Blocks (athead caseBlockIdx)))))
+//@    (and (= (len cb.Nodes) 1)
+//@         (isTagEq (idx cb.Nodes 0) switchExpr (atloop (idx (. (atloop (idx graph.Blocks (athead caseBlockIdx))) Nodes) 0)))
+//@         (= caseBlockIdx (atloop (. (idx (. (idx graph.Blocks (athead caseBlockIdx)) Succs) 1) Index)))))
